@@ -402,6 +402,20 @@ class MuxServer(BaseServer):
     else:
       conn.server_send(out, 0.0)
     extra = spec.get('adversarial')
+    if extra == 'alias':
+      # a never-issued tag that differs from an outstanding one only in a high bit
+      for bit in (0x800000, 0x400000, 0x010000):
+        alias = (r.tag | bit) & 0xFFFFFF
+        if alias != r.tag and alias not in st['unanswered'] and alias < 2 ** 24 - 1:
+          others = [t for t in st['unanswered'] if t != r.tag]
+          victim = (others[0] | bit) & 0xFFFFFF if others else alias
+          if victim in st['unanswered']:
+            victim = alias
+          st.setdefault('adv_sent', []).append((CLOCK.now, victim))
+          self.loop.note('srv%d.adversarial' % self.endpoint.index, 'alias tag=%d' % victim)
+          conn.server_send(rdispatch(victim, ST_NACK, b''), 0.0)
+          break
+      extra = None
     if extra:
       adv = {'duplicate': r.tag, 'tag0': 0}.get(extra, spec.get('adv_tag', 1))
       # whatever request currently holds that tag is thereby answered
